@@ -66,6 +66,7 @@ type c18Pod struct {
 	Use    map[string]int64 `json:"use"`
 	Prod   bool             `json:"prod"`
 	Pass   bool             `json:"pass"`   // what the evictor's Filter answers for this pod
+	Wl     string           `json:"wl"`     // workload group: the filter lets the pods of one group through one at a time ("" = no group)
 	Metric bool             `json:"metric"` // the NodeMetric carries a PodMetricInfo for this pod
 	EOK    bool             `json:"eok"`    // what the evictor's Evict answers for this pod
 }
@@ -98,7 +99,20 @@ type c18Harness struct {
 
 type c18Evictor struct{ h *c18Harness }
 
-func (e *c18Evictor) Filter(pod *corev1.Pod) bool            { return e.h.cur.in.Pods[pod.Name].Pass }
+func (e *c18Evictor) Filter(pod *corev1.Pod) bool {
+	p := e.h.cur.in.Pods[pod.Name]
+	if !p.Pass {
+		return false
+	}
+	if p.Wl != "" { // a per-workload limit on migrating pods: a group that already lost a member this round is closed
+		for _, g := range e.h.cur.gone {
+			if e.h.cur.in.Pods[g].Wl == p.Wl {
+				return false
+			}
+		}
+	}
+	return true
+}
 func (e *c18Evictor) PreEvictionFilter(pod *corev1.Pod) bool { return true }
 func (e *c18Evictor) Evict(ctx context.Context, pod *corev1.Pod, opts framework.EvictOptions) bool {
 	ok := e.h.cur.in.Pods[pod.Name].EOK
@@ -490,7 +504,8 @@ func (w *c18World) redraw(rng *rand.Rand, node string) {
 			}
 			use[r] = w.caps[node][r] * int64(1+rng.Intn(35)) / 100
 		}
-		w.pods[pn] = c18Pod{Node: node, Use: use, Prod: rng.Intn(20) < 9, Pass: rng.Intn(10) < 8, Metric: rng.Intn(25) < 23, EOK: rng.Intn(25) < 23}
+		w.pods[pn] = c18Pod{Node: node, Use: use, Prod: rng.Intn(20) < 9, Pass: rng.Intn(10) < 8, Metric: rng.Intn(25) < 23, EOK: rng.Intn(25) < 23,
+			Wl: []string{"", "", "", "w1", "w1", "w2"}[rng.Intn(6)]}
 		mine = append(mine, pn)
 	}
 	w.sys[node] = map[string]int64{}
